@@ -122,6 +122,7 @@ def set_meta(base, node, future):
     # the SOURCE is what the file system holds (it may clamp a far-future time or have a coarser clock)
     st = os.stat(p)
     node.mtime, node.nsec = st.st_mtime_ns // 10**9, st.st_mtime_ns % 10**9
+    node.atime = st.st_atime_ns // 10**9
 
 
 def reorder(base, node):
